@@ -11,13 +11,17 @@
 //!  (b) nest_if_else, nest_if_then, nest_if_tree
 //!                                       k conditionals nested in the else branch / in the then branch with
 //!                                       code after every level / in BOTH branches (heap-shaped tree of k nodes)
-//!  (c) seq_match2, seq_match3, seq_match5   k sequenced `println_i64(t.case {..});` on 2/3/5-constructor types
+//!  (c) seq_match2, seq_match3, seq_match5   k sequenced `let yi = (mk(y(i-1))).case {..};` on 2/3/5-constructor types, only
+//!                                       the last result alive;  print_match3: `println_i64(t.case {..});` k times (the match
+//!                                       sits in an argument position: its continuation is a covariable, nothing to share)
 //!  (d) nest_match3, case_of_case3       matches nested in a clause (code after every level) / in the scrutinee
-//!  (e) let_match3_live, let_match5_chain    chains `let yi = ti.case {..};`
+//!  (e) let_match3_live                  chain `let yi = ti.case {..};` with all results alive
 //!  (f) if_case3                         `(if c == 0 {A} else {B}).case {A => .., B => .., C => ..}` sequenced
 //!      crit_data_call3, crit_data_call5 `let ti: T = mk(..); rest`  (a call with a mu~ consumer: focusing makes
 //!                                       it <mu a. mk(..; a) | mu~ t. rest>, a critical pair at a data type)
 //!      crit_data_label3                 `let ti: T3 = label k { if .. { goto k (A3) } else { B3(..) } }; rest`
+//!      crit_data_fewvars3               `let ti: T3 = mk3(i);` k times, nothing alive: continuations with < 3 free variables
+//!      crit_codata_nested               label bodies nested k deep at a codata type (the EXPANDED side nests)
 //!      crit_codata_label                `let pi: Obj = label k { if .. { goto k (new {..}) } else { new {..} } }; rest`
 //!                                       (corpus/fun/c14_lift_label_collision.sc, k times: `lift` in shrinking)
 //!  (g) seq_dtor_live, seq_dtor_data     k destructor calls on `new {..}` objects, each followed by code
@@ -27,10 +31,11 @@ use std::fmt::Write as _;
 pub const FAMILIES: &[&str] = &[
     "seq_if_live", "seq_if_chain",
     "nest_if_else", "nest_if_then", "nest_if_tree",
-    "seq_match2", "seq_match3", "seq_match5",
+    "seq_match2", "seq_match3", "seq_match5", "print_match3",
     "nest_match3", "case_of_case3",
-    "let_match3_live", "let_match5_chain",
-    "if_case3", "crit_data_call3", "crit_data_call5", "crit_data_label3", "crit_codata_label",
+    "let_match3_live",
+    "if_case3", "crit_data_call3", "crit_data_call5", "crit_data_label3", "crit_data_fewvars3",
+    "crit_codata_label", "crit_codata_nested",
     "seq_dtor_live", "seq_dtor_data",
     "mixed",
 ];
@@ -73,6 +78,12 @@ fn nest_match3(i: usize, k: usize) -> String {
     format!("let y{i}: i64 = (mk3(a + {i})).case {{ A3 => {i}, B3(v{i}) => v{i}, C3 => {} }}; y{i} + 1", nest_match3(i + 1, k))
 }
 
+fn codata_level(i: usize, k: usize) -> String {
+    let obj = |i: usize| format!("new {{ geta => {i}, getb => a, getc(z{i}) => z{i} + {i} }}");
+    if i >= k { return format!("if a == {i} {{ goto k{i} ({}) }} else {{ {} }}", obj(i), obj(i + 1)); }
+    format!("let p{n}: Obj = label k{n} {{ {} }}; if a == {i} {{ goto k{i} ({}) }} else {{ p{n} }}", codata_level(i + 1, k), obj(i), n = i + 1)
+}
+
 pub fn family_text(name: &str, k: usize) -> Option<String> {
     let mut b = String::new(); // body of main(a: i64): i64
     match name {
@@ -92,15 +103,19 @@ pub fn family_text(name: &str, k: usize) -> Option<String> {
         "nest_if_then" => { b += &format!("  {}", nest_if_then(1, k)); }
         "nest_if_tree" => { b += &format!("  {}", nest_if_tree(1, k)); }
         "seq_match2" => {
-            for i in 1..=k { writeln!(b, "  println_i64({});", case2(&format!("(mk2(a + {i}))"), i)).unwrap(); }
-            b += "  a";
+            for i in 1..=k { writeln!(b, "  let y{i}: i64 = {};", case2(&format!("(mk2({}))", prev("y", i)), i)).unwrap(); }
+            b += &format!("  y{k}");
         }
         "seq_match3" => {
-            for i in 1..=k { writeln!(b, "  println_i64({});", case3(&format!("(mk3(a + {i}))"), i)).unwrap(); }
-            b += "  a";
+            for i in 1..=k { writeln!(b, "  let y{i}: i64 = {};", case3(&format!("(mk3({}))", prev("y", i)), i)).unwrap(); }
+            b += &format!("  y{k}");
         }
         "seq_match5" => {
-            for i in 1..=k { writeln!(b, "  println_i64({});", case5(&format!("(mk5(a + {i}))"), i)).unwrap(); }
+            for i in 1..=k { writeln!(b, "  let y{i}: i64 = {};", case5(&format!("(mk5({}))", prev("y", i)), i)).unwrap(); }
+            b += &format!("  y{k}");
+        }
+        "print_match3" => {
+            for i in 1..=k { writeln!(b, "  println_i64({});", case3(&format!("(mk3(a + {i}))"), i)).unwrap(); }
             b += "  a";
         }
         "nest_match3" => { b += &format!("  {}", nest_match3(1, k)); }
@@ -114,10 +129,6 @@ pub fn family_text(name: &str, k: usize) -> Option<String> {
         "let_match3_live" => {
             for i in 1..=k { writeln!(b, "  let y{i}: i64 = {};", case3(&format!("(mk3({}))", prev("y", i)), i)).unwrap(); }
             b += &format!("  {}", sum("y", k));
-        }
-        "let_match5_chain" => {
-            for i in 1..=k { writeln!(b, "  let y{i}: i64 = {};", case5(&format!("(mk5({}))", prev("y", i)), i)).unwrap(); }
-            b += &format!("  y{k}");
         }
         "if_case3" => {
             for i in 1..=k {
@@ -139,11 +150,17 @@ pub fn family_text(name: &str, k: usize) -> Option<String> {
         }
         "crit_data_label3" => {
             for i in 1..=k {
-                writeln!(b, "  let t{i}: T3 = label k{i} {{ if {} == {i} {{ goto k{i} (A3) }} else {{ B3({i}) }} }};", prev("y", i)).unwrap();
-                writeln!(b, "  let y{i}: i64 = {};", case3(&format!("t{i}"), i)).unwrap();
+                writeln!(b, "  let t{i}: T3 = label k{i} {{ if a == {i} {{ goto k{i} (A3) }} else {{ B3({i}) }} }};").unwrap();
             }
+            for i in 1..=k { writeln!(b, "  let y{i}: i64 = {};", case3(&format!("t{i}"), i)).unwrap(); }
             b += &format!("  {}", sum("y", k));
         }
+        "crit_data_fewvars3" => {
+            // the continuation of every critical pair has fewer than three free variables
+            for i in 1..=k { writeln!(b, "  let t{i}: T3 = mk3({i});").unwrap(); }
+            b += "  0";
+        }
+        "crit_codata_nested" => { b += &format!("  let p1: Obj = label k1 {{ {} }};\n  (p1.geta) - (p1.getb)", codata_level(1, k)); }
         "crit_codata_label" => {
             for i in 1..=k {
                 writeln!(b, "  let p{i}: Obj = label k{i} {{ if {} == {i} {{ goto k{i} (new {{ geta => {i}, getb => 2, getc(z{i}) => z{i} }}) }} else {{ new {{ geta => 3, getb => a, getc(z{i}) => z{i} + {i} }} }} }};", prev("y", i)).unwrap();
